@@ -120,7 +120,7 @@ def build():
         ],
         "checks": checks,
         "not_applicable": na,
-        "notes": "Technique family: deterministic simulation with fault injection. Exit codes of every check: 0 held (KNOWN-FINDING lines possible), 1 VIOLATION with a replay that reproduced in a fresh interpreter, 2 harness error (never a verdict). Known findings: /verif/KNOWN_FINDINGS.jsonl (13 fixed by fix: commits in /repo; 16 known: 15 x C18 by call site, 1 x C12 rare recovery stall with a frequency condition). Sensitivity: selftest/run_mutants.py (25 catalogue mutants, 75 seeded changes from independent sub-agents (4 rounds) under /verif/seeded, 12 behaviour-preserving refactorings under /verif/benign that must stay quiet). DESIGN.md sections 11-14 describe the code as built.",
+        "notes": "Technique family: deterministic simulation with fault injection. Exit codes of every check: 0 held (KNOWN-FINDING lines possible), 1 VIOLATION with a replay that reproduced in a fresh interpreter, 2 harness error (never a verdict). Known findings: /verif/KNOWN_FINDINGS.jsonl (13 fixed by fix: commits in /repo; 16 known: 15 x C18 by call site, 1 x C12 rare recovery stall with a frequency condition). Sensitivity: selftest/run_mutants.py (26 catalogue mutants, 75 seeded changes from independent sub-agents (4 rounds) under /verif/seeded, 12 behaviour-preserving refactorings under /verif/benign that must stay quiet). DESIGN.md sections 11-14 describe the code as built.",
     }
 
 
